@@ -48,6 +48,7 @@ type Stats struct {
 	MapRangesUnord []string // sites whose key type has no canonical order
 	Closes         int
 	ImportSwaps    int
+	Reinits        int // package-level channels / sync objects re-made at the start of every run
 	TimeCalls      []string // uses of package time that create timers/clock reads (not owned)
 }
 
@@ -363,6 +364,9 @@ func (r *rewriter) rewriteFile() error {
 			}
 		}
 	}
+	if r.opt.Conc || r.opt.Sync {
+		r.reinitPackageLevel()
+	}
 	if r.needRT {
 		r.addImport(rtName, SimrtPath)
 	}
@@ -370,6 +374,60 @@ func (r *rewriter) rewriteFile() error {
 		r.addImport(dmName, DetmapPth)
 	}
 	return nil
+}
+
+// reinitPackageLevel makes package-level channels and synchronisation objects
+// per-run: a channel made by a package-level initialiser exists before any
+// simulation starts — outside the testing/synctest bubble, where blocking on it
+// is not "durable" and the scheduler would never regain control — and a
+// package-level Mutex or WaitGroup would carry a dead run's state into the next
+// one. For every such variable an init function registers a re-initialisation
+// that the simulator runs at the start of each run, inside the bubble.
+func (r *rewriter) reinitPackageLevel() {
+	var stmts []ast.Stmt
+	for _, d := range r.file.Decls {
+		gd, ok := d.(*ast.GenDecl)
+		if !ok || gd.Tok != token.VAR {
+			continue
+		}
+		for _, sp := range gd.Specs {
+			vs := sp.(*ast.ValueSpec)
+			if len(vs.Names) == 1 && len(vs.Values) == 1 && vs.Names[0].Name != "_" {
+				if c, ok := vs.Values[0].(*ast.CallExpr); ok && len(c.Args) >= 1 {
+					if id, ok := c.Fun.(*ast.Ident); ok && id.Name == "make" {
+						if _, ok := c.Args[0].(*ast.ChanType); ok {
+							stmts = append(stmts, &ast.AssignStmt{Lhs: []ast.Expr{ast.NewIdent(vs.Names[0].Name)}, Tok: token.ASSIGN, Rhs: []ast.Expr{vs.Values[0]}})
+						}
+					}
+				}
+			}
+			if len(vs.Values) == 0 && vs.Type != nil && r.opt.Sync {
+				if se, ok := vs.Type.(*ast.SelectorExpr); ok {
+					if id, ok := se.X.(*ast.Ident); ok {
+						if pn, ok := r.info.Uses[id].(*types.PkgName); ok && pn.Imported().Path() == "sync" {
+							switch se.Sel.Name {
+							case "Mutex", "RWMutex", "WaitGroup", "Once":
+								for _, n := range vs.Names {
+									stmts = append(stmts, &ast.AssignStmt{Lhs: []ast.Expr{ast.NewIdent(n.Name)}, Tok: token.ASSIGN,
+										Rhs: []ast.Expr{&ast.CompositeLit{Type: &ast.SelectorExpr{X: ast.NewIdent(id.Name), Sel: ast.NewIdent(se.Sel.Name)}}}})
+								}
+							}
+						}
+					}
+				}
+			}
+		}
+	}
+	if len(stmts) == 0 {
+		return
+	}
+	r.st.Reinits += len(stmts)
+	r.needRT, r.changed = true, true
+	r.file.Decls = append(r.file.Decls, &ast.FuncDecl{
+		Name: ast.NewIdent("init"),
+		Type: &ast.FuncType{Params: &ast.FieldList{}},
+		Body: &ast.BlockStmt{List: []ast.Stmt{&ast.ExprStmt{X: call(rt("OnRunStart"), &ast.FuncLit{Type: &ast.FuncType{Params: &ast.FieldList{}}, Body: &ast.BlockStmt{List: stmts}})}}},
+	})
 }
 
 func (r *rewriter) noteTimeUses() {
